@@ -9,6 +9,7 @@ ID = 'C04'
 PROPS_V = 'C04/Props.v'
 LEVEL = 'proof'
 TRUSTED = [
+    'translate/c04.py + translate/pyexpr.py: Python ast -> Gallina for the range ends, RA wrap, validity test, floor-binning expressions and walk tests of chunks.assign/getbounds/get (Generated/Chunks.v; C04_generated_index_arithmetic proves them equal to the model\'s)',
     'hand-written model C04/Model.v (selection loops, chunks.assign bookkeeping incl. RA wrap arithmetic, pair loop) -- '
     'tied to the code by exact reproduction of (match1, match2, distance12) and of chunkList from recorded getbounds()/get()/argsort data',
     'harness/impl/c04_impl.py: wraps chunks.getbounds/get and the np.array(...).argsort() call from the harness process to record discrete data',
@@ -25,6 +26,19 @@ ASSUMPTIONS = [
 ]
 
 D2R = math.pi / 180.0
+
+
+def translate(ctx):
+    """regenerate coq/Generated/Chunks.v (index arithmetic of chunks.assign / getbounds / get) from the source under test"""
+    from translate import c04 as T
+    text, info = T.generate(C.REPO)
+    path = os.path.join(C.COQ, 'Generated', 'Chunks.v')
+    if text is not None:
+        info['changed'] = C.write_if_changed(path, text)
+    else:
+        info['note'] = ('source shape not recognised; the previous Generated/Chunks.v is kept and the correspondence run alone '
+                        'ties the index arithmetic of the model to the code')
+    return {'Chunks': info}
 
 # --------------------------------------------------------------------------- geometry helpers (generator only)
 
